@@ -159,32 +159,78 @@ pub fn drive_c16(args: &[String]) {
             }
         }
     }
-    // (c) finite fundamental group: universal covers and freely acting cyclic covers of spherical 3-D symbols
-    for src in ["<1.1:1 3:1,1,1,1:3,3,3>", "<1.1:1 3:1,1,1,1:4,3,3>", "<1.1:1 3:1,1,1,1:3,4,3>", "<1.1:2 3:2,2,2,2:4,3,3>"] {
-        let s: PartialDSym = src.parse().unwrap();
-        let oc = oriented_cover(&s);
-        if let Ok(u) = catch(|| finite_universal_cover(&s)) { if u.size() <= 400 { sink.emit(simplify_event(&u, false, true, 1, &mut rng, "finite universal cover")); } }
+    // (c) finite fundamental group: the spherical Coxeter symbols [p,q,r] and prisms [p,2,q] with crystallographic
+    // branching (finite groups by classification), their covers with at most 2 sheets (subgroups of index <= 2 are
+    // finite too); inputs for simplify are their finite universal covers and freely acting covers of their oriented
+    // covers found by enumerating subgroups generated by one or two short words
+    let thorough = std::env::var("DSV_THOROUGH").is_ok();
+    // finiteness is decided by the library's own enumeration (a panic at its row limit = infinite) — used only to
+    // select inputs: a wrongly selected input would merely make the homology comparison vacuous or fail loudly
+    let mut cands: Vec<PartialDSym> = vec![];
+    for n in 1..=2 { cands.extend(domain3d(n)); }
+    let chunks: Vec<Vec<PartialDSym>> = cands.chunks((cands.len() + 13) / 14).map(|c| c.to_vec()).collect();
+    let mut bases: Vec<PartialDSym> = vec![];
+    std::thread::scope(|sc| {
+        let hs: Vec<_> = chunks.iter().map(|ch| sc.spawn(move || {
+            ch.iter().filter(|s| catch(|| finite_universal_cover(*s).size()).map_or(false, |k| k <= 600)).cloned().collect::<Vec<_>>()
+        })).collect();
+        for h in hs { bases.extend(h.join().unwrap_or_default()); }
+    });
+    bases.shuffle(&mut rng);
+    let per_base = arg_usize(args, "--per-base", if thorough { 6 } else { 2 });
+    let max_bases = arg_usize(args, "--bases", bases.len());
+    bases.truncate(max_bases);
+    let is_manifold = |c: &PartialDSym| {
+        // (a universal cover that is still branched belongs to a bad orbifold and is outside the domain of the property)
+        let branch_free = (0..=3).all(|i| (i..=3).all(|j| (1..=c.size()).all(|d| i == j || c.v(i, j, d) == Some(1))));
+        let spheres = |idx: [usize; 3]| c.orbit_reps(idx, 1..=c.size()).iter().all(|&d| { let t = subsymbol(c, idx, d); t.is_loopless() && delaney2d::curvature(&t) == num_rational::Rational64::from(4) });
+        branch_free && spheres([0, 1, 2]) && spheres([1, 2, 3])
+    };
+    let base_seed = seed();
+    let work = |k: usize, s: &PartialDSym| -> Vec<Value> {
+        let mut rng = StdRng::seed_from_u64(base_seed.wrapping_mul(1_000_003).wrapping_add(k as u64));
+        let mut evs = vec![];
+        let oc = oriented_cover(s);
+        if rng.gen_bool(0.15) { if let Ok(u) = catch(|| finite_universal_cover(s)) { if u.size() <= 300 && is_manifold(&u) { evs.push(simplify_event(&u, false, true, 1, &mut rng, "finite universal cover")); } } }
         if let Ok(fg) = catch(|| fundamental_group(&oc)) {
-            let ng = fg.nr_generators() as isize;
-            let mut tried = 0;
-            let mut kept = 0;
-            while tried < 400 && kept < 3 && ng > 0 {
+            let ng = fg.nr_generators();
+            if ng == 0 { return evs; }
+            // cyclic subgroups generated by ALL short words, shortest first (seeded order within a length), then two-generator ones
+            let mut pool: Vec<Vec<isize>> = crate::groups::short_words(ng, 4).into_iter().filter(|w| !w.is_empty()).collect();
+            pool.shuffle(&mut rng);
+            pool.sort_by_key(|w| w.len());
+            let limit = if thorough { 2000 } else { 260 };
+            let (mut tried, mut kept) = (0, 0);
+            let mut seen_forms = std::collections::HashSet::new();
+            while tried < limit && kept < per_base {
+                let ws: Vec<FreeWord> = if tried < pool.len() { vec![FreeWord::new(pool[tried].iter().cloned())] }
+                    else { (0..2).map(|_| FreeWord::new(pool.choose(&mut rng).unwrap().iter().cloned())).collect() };
                 tried += 1;
-                let l = rng.gen_range(2..=6);
-                let w = FreeWord::new((0..l).map(|_| { let g = rng.gen_range(1..=ng); if rng.gen_bool(0.5) { g } else { -g } }));
-                if w.len() == 0 { continue; }
-                if let Ok(c) = catch(|| subgroup_cover(&oc, &vec![w.clone()])) {
-                    if c.size() > 200 || c.size() == oc.size() { continue; }
-                    let branch_free = (0..3).all(|i| (1..=c.size()).all(|d| c.v(i, i + 1, d) == Some(1)));
-                    let spheres = |idx: [usize; 3]| c.orbit_reps(idx, 1..=c.size()).iter().all(|&d| { let t = subsymbol(&c, idx, d); t.is_loopless() && delaney2d::curvature(&t) == num_rational::Rational64::from(4) });
-                    if branch_free && c.is_oriented() && spheres([0, 1, 2]) && spheres([1, 2, 3]) {
+                if let Ok(c) = catch(|| subgroup_cover(&oc, &ws)) {
+                    if c.size() > 160 || c.size() == oc.size() { continue; }
+                    if is_manifold(&c) && c.is_oriented() && seen_forms.insert(canonical(&c).to_string()) {
                         kept += 1;
-                        sink.emit(simplify_event(&c, false, true, 1, &mut rng, "freely acting cover, finite group"));
+                        evs.push(simplify_event(&c, false, true, 0, &mut rng, "freely acting cover, finite group"));
+                        // what simplify does depends on the numbering (which moves apply first): every renumbering is a full event
+                        for _ in 0..(if thorough { 4 } else { 2 }) {
+                            let r = renumber(&c, &rand_perm(c.size(), &mut rng));
+                            evs.push(simplify_event(&r, false, true, 0, &mut rng, "freely acting cover, finite group"));
+                        }
                     }
                 }
             }
         }
-    }
+        evs
+    };
+    let idx: Vec<(usize, &PartialDSym)> = bases.iter().enumerate().collect();
+    let parts: Vec<&[(usize, &PartialDSym)]> = idx.chunks((idx.len() + 13) / 14).collect();
+    let mut all: Vec<(usize, Vec<Value>)> = vec![];
+    std::thread::scope(|sc| {
+        let hs: Vec<_> = parts.iter().map(|part| { let work = &work; sc.spawn(move || part.iter().map(|&(k, s)| (k, work(k, s))).collect::<Vec<_>>()) }).collect();
+        for h in hs { all.extend(h.join().unwrap_or_default()); }
+    });
+    all.sort_by_key(|x| x.0);
+    for (_, evs) in all { for e in evs { sink.emit(e); } }
     sink.flush();
     println!("{}", json!({"events": sink.n}));
 }
